@@ -734,3 +734,58 @@ func init() {
 		return nil
 	}
 }
+
+func init() {
+	externals["os.ReadDir"] = func(fr *frame, a []value) value {
+		i := fr.i
+		e := i.env
+		dir := strings.TrimSuffix(pathArg(i, a[0]), "/")
+		if f := e.takeReadFault("readdir:" + dir); f != 0 {
+			return tuple{[]value(nil), i.pathError("open", dir, f)}
+		}
+		var names []string
+		seen := map[string]bool{}
+		found := false
+		for p := range e.files {
+			if p == dir {
+				found = true
+			}
+			if strings.HasPrefix(p, dir+"/") {
+				found = true
+				rest := p[len(dir)+1:]
+				if k := strings.Index(rest, "/"); k >= 0 {
+					rest = rest[:k]
+				}
+				if !seen[rest] {
+					seen[rest] = true
+					names = append(names, rest)
+				}
+			}
+		}
+		if !found {
+			return tuple{[]value(nil), i.pathError("open", dir, enoent)}
+		}
+		sortStrings(names)
+		osp := i.prog.ImportedPackage("os")
+		dt := osp.Type("unixDirent")
+		if dt == nil {
+			i.abort(abortUnsupported, "os.unixDirent not available")
+		}
+		st := dt.Type().Underlying().(*types.Struct)
+		out := make([]value, len(names))
+		for k, n := range names {
+			var cell value = zero(dt.Type())
+			sv := cell.(structure)
+			for f := 0; f < st.NumFields(); f++ {
+				switch st.Field(f).Name() {
+				case "name":
+					sv[f] = n
+				case "parent":
+					sv[f] = dir
+				}
+			}
+			out[k] = iface{t: types.NewPointer(dt.Type()), v: &cell}
+		}
+		return tuple{out, iface{}}
+	}
+}
